@@ -117,8 +117,21 @@ def effective_ops(ops):
     return out
 
 
+def uses_enc_machine(case):
+    """histories of appends / restarts / failed-encoder appends under a post-processing trigger run, in the
+    model, on the machine of coq/Model/RollingEnc.v (C06's driver), op for op"""
+    trig, roller, pre, a0, ops = case
+    return (any(o[0] == 11 for o in ops) and all(o[0] in (0, 1, 11) for o in ops)
+            and not is_pre_trigger(trig) and trig[0] in (0, 2) and pre[0] in (0, 1) and MACHINE_FOR_ENC_FAIL[0])
+
+
+MACHINE_FOR_ENC_FAIL = [False]      # set by gen/c06.py (its driver c06_run knows op 11)
+
+
 def flatten_for_model(case, impl):
     trig, roller, pre, a0, ops = case
+    if uses_enc_machine(case):
+        return case
     ops = effective_ops(ops)
     if pre[0] == 2:
         pre = [1, pre[1]]              # a symlinked log path: for the model just a pre-existing file
@@ -247,6 +260,19 @@ def compare(case, impl, model):
                 return "op %d: the policy was consulted although the encoder failed" % i
             if errors != 1:
                 return "op %d: append returned Ok although its encoder failed" % i
+            if uses_enc_machine(case):
+                # the model (RollingEnc machine) has an entry for this op: same directory, no consultation, Err
+                if mj >= len(model):
+                    return "op %d: model produced too few entries" % i
+                m_snap = _snap(model[mj][1])
+                mj += 1
+                if snap != m_snap:
+                    return "op %d: directory after the failed-encoder append: impl %r != model %r" % (i, snap, m_snap)
+                prev_snap = snap
+                stream_ok = False
+                STATS["failed_encodes"] = STATS.get("failed_encodes", 0) + 1
+                STATS["failed_encodes_on_machine"] = STATS.get("failed_encodes_on_machine", 0) + 1
+                continue
             # (the call may have re-created the active file, empty, after a rotation: get_writer)
             fresh = sorted((prev_snap or []) + [[0, 0, b""]]) if not any(e[0] == 0 for e in (prev_snap or [])) else None
             if snap != prev_snap and snap != fresh:
